@@ -36,7 +36,7 @@ def reference():
 
 
 def current(c):
-    return _cached(c, 'refusals', guards.extract)
+    return _cached(c, 'refusals', lambda index: guards.extract(index, ref=reference()), extra=json.dumps(reference(), sort_keys=True))
 
 
 _NF = {}
@@ -86,6 +86,11 @@ def check(chk, c, rule, funcs, classes=None, what='refusal'):
                 chk.ok(rule, construct, 'was unreachable in the reviewed tree (dead refusal); nothing to keep', loc, key=key)
                 continue
             if cu is None:
+                moved = _moved_into_helper(c, fq, cls, ref, cur) if cls not in cur.get(fq, {}) else None
+                if moved:
+                    chk.info('%s: %s/%s now stands in the new helper %s that the function calls; not compared' % (rule, fq, cls, moved))
+                    chk.ok(rule, construct, 'not compared: the refusal was extracted into the new function %s' % moved, loc, key=key)
+                    continue
                 if cls not in cur.get(fq, {}):
                     chk.fail(rule, construct, 'the function no longer %s at all: every input it used to refuse this way is now accepted '
                                               '(or fails differently)' % ('raises %s' % cls if cls != 'return False' else 'returns False'),
@@ -116,6 +121,24 @@ def check(chk, c, rule, funcs, classes=None, what='refusal'):
     return n
 
 
+def _moved_into_helper(c, fq, cls, ref, cur):
+    """qualname of a function that did not exist in the reviewed tree, is called directly by fq and performs the refusal `cls`
+    (an extract-function refactoring); None otherwise"""
+    try:
+        known = set(reference_events())
+    except AnalysisError:
+        known = set()
+    for s_ in c.cg.sites.get(fq, ()):
+        if s_.kind != 'call':
+            continue
+        for t in s_.targets:
+            if t.kind == 'func':
+                h = t.func.qualname
+                if h != fq and h not in ref and h not in known and cls in cur.get(h, {}):
+                    return h
+    return None
+
+
 def reference_events():
     global _REF_EV
     if _REF_EV is None:
@@ -129,7 +152,7 @@ def reference_events():
 _MEM = {}
 
 
-def _cached(c, tag, fn):
+def _cached(c, tag, fn, extra=None):
     """result of an extractor on the tree under analysis; cached in memory and on disk by the digest of the analysed sources
     and of the extractor's own code"""
     import hashlib
@@ -146,6 +169,8 @@ def _cached(c, tag, fn):
     here = os.path.dirname(os.path.dirname(os.path.abspath(__file__)))
     for f in ('guards.py', 'canon.py', 'cfg.py', 'src.py', os.path.join('rules', 'c12.py'), os.path.join('rules', 'pat.py')):
         h.update(open(os.path.join(here, f), 'rb').read())
+    if extra is not None:
+        h.update(extra.encode())
     cache_dir = os.path.join(os.path.dirname(here), '.cache')
     path = os.path.join(cache_dir, '%s-%s.json' % (tag, h.hexdigest()[:24]))
     res = None
@@ -168,7 +193,8 @@ def _cached(c, tag, fn):
 
 
 def current_events(c):
-    return _cached(c, 'decisions', guards.extract_events)
+    return _cached(c, 'decisions', lambda index: guards.extract_events(index, ref=reference_events()),
+                   extra=json.dumps(reference_events(), sort_keys=True))
 
 
 def check_decisions(chk, c, rule, select, what='decision structure'):
@@ -207,6 +233,18 @@ def check_decisions(chk, c, rule, select, what='decision structure'):
                         and g_.startswith(('call _', 'return _')) and '.' not in g_ for g_ in gone):
             chk.info('%s: %s no longer calls its helper(s) %s (inlined?): not compared' % (rule, fq, gone[:2]))
             chk.ok(rule, '%s: %s' % (fq, what), 'helper calls removed (inlined), not compared', fi.loc, key=key)
+            continue
+        # control flow by exception replaced by an explicit test (try/except KeyError -> `in` test) or the reverse: the
+        # function's vocabulary changed on both sides
+        def _atoms(tab):
+            return {a for e in tab.values() if e for a in e.get('atoms', ())}
+        ra_, ca_ = _atoms(r), _atoms(cu)
+        r_raise, c_raise = {a for a in ra_ if a.startswith('raises: ')}, {a for a in ca_ if a.startswith('raises: ')}
+        if (r_raise - c_raise and {a for a in ca_ - ra_ if not a.startswith('raises: ')}) or \
+                (c_raise - r_raise and {a for a in ra_ - ca_ if not a.startswith('raises: ')}):
+            chk.info('%s: %s: a handler-driven decision and an explicit test were exchanged (%s / %s): not compared' % (
+                rule, fq, sorted((r_raise - c_raise) | (c_raise - r_raise))[:2], sorted(a for a in (ca_ ^ ra_) if not a.startswith('raises: '))[:2]))
+            chk.ok(rule, '%s: %s' % (fq, what), 'handler / explicit test exchanged, not compared', fi.loc, key=key)
             continue
         if gone:
             chk.fail(rule, '%s: %s' % (fq, what),
